@@ -25,20 +25,25 @@ ParseVerdict(r) ==
             /\ (AsBytes(d) = r.in.bytes => r.out.out = r.in.bytes)
          THEN "ok" ELSE "bad"
 
-\* the value the API calls assemble: entries inserted in order, keyed by name, by file type
+\* the value the API calls assemble: Entry::new + insert in order, keyed by name, by file type; a
+\* later insert of a name that is already present replaces that entry in place (and returns false)
 Built(in) ==
     LET RECURSIVE Ins(_, _)
         Ins(i, d) == IF i > Len(in.entries) THEN d
                      ELSE LET e == in.entries[i]
                               ent == [name |-> e.name, size |-> IF e.size = <<>> THEN <<>> ELSE <<StripZeros(e.size[1])>>, sums |-> e.sums]
-                          IN Ins(i + 1, IF IsPatch(e.name) THEN [d EXCEPT !.patch = Append(@, ent)] ELSE [d EXCEPT !.dist = Append(@, ent)])
+                              Put(es) == LET j == IndexOf(es, e.name) IN IF j = 0 THEN Append(es, ent) ELSE [es EXCEPT ![j] = ent]
+                          IN Ins(i + 1, IF IsPatch(e.name) THEN [d EXCEPT !.patch = Put(@)] ELSE [d EXCEPT !.dist = Put(@)])
     IN Ins(1, [rcsid |-> in.rcsid, dist |-> <<>>, patch |-> <<>>])
+InsertedFlags(in) == [i \in 1..Len(in.entries) |->
+                        IF \E j \in 1..(i - 1) : in.entries[j].name = in.entries[i].name THEN "F" ELSE "T"]
 \* what survives the file format: patches carry no size
 Expressible(d) == [d EXCEPT !.patch = [i \in 1..Len(d.patch) |-> [d.patch[i] EXCEPT !.size = <<>>]]]
 BuildVerdict(r) ==
-    IF ~Shape(r.out, {"built", "out", "back"}) THEN "bad"
+    IF ~Shape(r.out, {"built", "out", "back", "inserted"}) THEN "bad"
     ELSE LET d == Built(r.in) IN
          IF /\ r.out.built = DIJson(d)
+            /\ r.out.inserted = InsertedFlags(r.in)
             /\ r.out.out = AsBytes(d)
             /\ r.out.back = DIJson(Expressible(d))         \* same RCS Id, files, order, checksums, size
             /\ FromBytes(AsBytes(d)) = Expressible(d)
